@@ -3,7 +3,7 @@
    sumbool -> OCaml), plus ExtrOCamlFloats / ExtrOCamlInt63 for Coq's
    primitive floats.  N, Z, positive stay the extracted inductive types. *)
 From Coq Require Extraction.
-From Coq Require Import ExtrOcamlBasic.
-From EF Require Import Model.Base Model.Lexer.
+From Coq Require Import ExtrOcamlBasic ExtrOCamlFloats ExtrOCamlInt63.
+From EF Require Import Gen.Tables Model.Base Model.Lexer Model.Ast Model.Parser.
 Extraction Language OCaml.
-Extraction "model.ml" Lexer.lex Lexer.tokty_name.
+Extraction "model.ml" Lexer.lex Lexer.tokty_name Parser.parse_script Tables.max_depth.
